@@ -146,6 +146,25 @@ func NewLog(u *Universe, idx int, origin, id string, key *refnote.SignKey, branc
 	return &Log{Idx: idx, Origin: origin, ID: id, Key: key, Branches: branches, U: u, roots: map[string][]BS{}}
 }
 
+// ReplaceBranch swaps in a new tree object for branch b and rebuilds the root index.
+// (Never mutate the fields of a Tree that has been used: its memo would be stale.)
+func (l *Log) ReplaceBranch(b int, t *reftree.Tree) {
+	l.mu.Lock()
+	l.Branches[b] = t
+	l.roots = map[string][]BS{}
+	l.mu.Unlock()
+	if !l.U.Lazy {
+		for bi, tr := range l.Branches {
+			for s := uint64(0); s <= l.U.MaxSize; s++ {
+				rt := tr.Root(s)
+				l.mu.Lock()
+				l.roots[string(rt[:])] = append(l.roots[string(rt[:])], BS{bi, s})
+				l.mu.Unlock()
+			}
+		}
+	}
+}
+
 // Root returns the root of (branch,size) and remembers it for Lookup.
 func (l *Log) Root(b int, size uint64) []byte {
 	rt := l.Branches[b].Root(size)
